@@ -214,18 +214,20 @@ def gen_programs(ctx, n, big=False, layouts=('canonical', 'random', 'multi', 'ma
     return out
 
 
-def nested_macro_loops():
+def nested_macro_loops(looponly=False):
     """every loop macro of the library nested in itself two and three deep (counts 3, 2, 2), written on one line and one
     statement per line: each use must get its own temporaries wherever it stands"""
     out = []
-    for fm in ('REPN', 'REPZ', 'REPUP', 'REPW'):
+    for fm, samevar in [(f_, sv_) for f_ in (None, 'REPN', 'REPZ', 'REPUP', 'REPW') for sv_ in (False, True)]:
+        if looponly and fm == 'REPW':
+            continue
         for depth in (2, 3):
             for oneline in (False, True):
                 body = [['assign', 'x0', ('inc', 'x0', 1)]]
                 for lv in range(depth, 0, -1):
-                    body = [['loop', 'x%d' % lv, body], ['assign', 'x%d' % (lv + 3), ('inc', 'x%d' % (lv + 3), 1)]]
+                    body = [['loop', 'x1' if samevar else 'x%d' % lv, body], ['assign', 'x%d' % (lv + 3), ('inc', 'x%d' % (lv + 3), 1)]]
                 main = sources.number([], [['assign', 'x1', ('num', 3)], ['assign', 'x2', ('num', 2)], ['assign', 'x3', ('num', 2)]] + body)[1]
-                text, _ = sources.canonical([], main, None, pv=pv_macro, loopfmt=lambda st: fm)
+                text, _ = sources.canonical([], main, None, pv=pv_macro, loopfmt=(lambda st: fm) if fm else None)
                 if oneline:
                     text = text.replace('\n', ' ')
                 files = {b'm': b'include "lib"\n' + text.encode(), b'lib': MACRO_LIB.encode()}
@@ -308,6 +310,12 @@ def check_C03(ctx):
             call = 'RUN f WITH ' + ', '.join(str(5 + j) for j in range(na_)) + ' END'
             for src in (hdr + 'x1 := ' + call + '\n', hdr + 'PROGRAM g IN q DO x0 := q END\nx1 := RUN g WITH ' + call + ' END\n'):
                 cases.append({'defs': None, 'main': None, 'mainf': b'm', 'files': {b'm': src.encode()}, 'layout': 'arity', 'text': {'m': src}})
+    # ports whose names differ only in letter case, in routines whose frame holds nothing but the ports
+    for names in (['n', 'N'], ['ab', 'aB', 'Ab'], ['q', 'Q', 'q0', 'Q0'], ['x0', 'X0']):
+        for body in ('', names[-1] + ' := ' + names[0], names[0] + ' := 1'):
+            for outp in ('', ' OUT ' + names[-1], ' OUT ' + names[0].upper() + 'z'):
+                src = 'PROGRAM f IN %s%s DO %s END\nx1 := RUN f WITH %s END\n' % (', '.join(names), outp, body, ', '.join(str(3 + j) for j in range(len(names))))
+                cases.append({'defs': None, 'main': None, 'mainf': b'm', 'files': {b'm': src.encode()}, 'layout': 'arity', 'text': {'m': src}})
     dup = "PROGRAM f IN a, a OUT a DO a := a END\nx1 := RUN f WITH 1, 2 END\n"
     cases.append({'defs': None, 'main': None, 'mainf': b'm', 'files': {b'm': dup.encode()}, 'layout': 'dup-params', 'text': {'m': dup}})
     tri = [(c['mainf'], c['files'], c) for c in cases]
@@ -348,6 +356,8 @@ def check_C16(ctx):
     cases = gen_programs(ctx, ctx.n(350, 3500), layouts=('canonical', 'random', 'multi', 'macro', 'oneline'))
     # sources without WHILE / GOTO, loops that assign their own bound, half of them written through macros that loop over a temporary
     cases += gen_programs(ctx, ctx.n(250, 2500), layouts=('canonical', 'macro', 'macro', 'oneline', 'random'), looponly=True)
+    # every loop form nested in itself (also over ONE bound variable at every level), on one line and one statement per line
+    cases += nested_macro_loops(looponly=True)
     # attempts at self / forward / mutual reference, across files and redefinitions
     bad = [
         "PROGRAM f IN a DO x0 := RUN f WITH a END END\nx1 := RUN f WITH 1 END\n",
